@@ -4,9 +4,12 @@ package wallet
 
 import (
 	"github.com/btcsuite/btcd/btcutil"
+	"github.com/btcsuite/btcd/btcutil/hdkeychain"
 	"github.com/btcsuite/btcd/wire"
 	"github.com/btcsuite/btcwallet/wallet/txauthor"
 	"github.com/btcsuite/btcwallet/wallet/txsizes"
+	"github.com/btcsuite/btcwallet/waddrmgr"
+	"github.com/btcsuite/btcwallet/walletdb"
 	"github.com/btcsuite/btcwallet/wtxmgr"
 
 	"verif/verifrt"
@@ -90,5 +93,83 @@ func ZzC07WalletSources() {
 			verifrt.Assert(sum-amts[n-1] < pay+int64(rate), "c07w-no-coin-beyond-need")
 		}
 	}
+	verifrt.Reach("c07w-end")
+}
+
+// ZzC07WalletChangeSource: the wallet's REAL change source
+// (addrMgrWithChangeSource, wallet/createtx.go) for every default scope and a
+// custom one, for the default account, an imported extended-public-key
+// account with or without an overriding address schema, and the imported-keys
+// account: the script it hands out has exactly the size the fee estimate was
+// told (ChangeSource.ScriptSize) and the type the account's effective address
+// schema prescribes for the internal branch.
+func ZzC07WalletChangeSource() {
+	w := zzNewWalletWorld(10001, 3)
+	scopes := []waddrmgr.KeyScope{waddrmgr.KeyScopeBIP0044, waddrmgr.KeyScopeBIP0049Plus,
+		waddrmgr.KeyScopeBIP0084, waddrmgr.KeyScopeBIP0086, {Purpose: 1017, Coin: 1}}
+	si := verifrt.Choice(len(scopes), "scope")
+	scope := scopes[si]
+	schema, known := waddrmgr.ScopeAddrMap[scope]
+	if !known {
+		schema = waddrmgr.ScopeAddrSchema{ExternalAddrType: waddrmgr.WitnessPubKey, InternalAddrType: waddrmgr.TaprootPubKey}
+		zzW(walletdb.Update(w.db, func(tx walletdb.ReadWriteTx) error {
+			ns := tx.ReadWriteBucket(waddrmgrNamespaceKey)
+			if err := w.w.Manager.Unlock(ns, zzWPriv); err != nil {
+				return err
+			}
+			_, err := w.w.Manager.NewScopedKeyManager(ns, scope, schema)
+			return err
+		}))
+		verifrt.Reach("custom-scope")
+	}
+	account := uint32(0)
+	switch verifrt.Choice(3, "account") {
+	case 1: // somebody's account key, imported with or without an override
+		root, err := hdkeychain.NewMaster(zzWSeed, w.params)
+		zzW(err)
+		k := root
+		for _, i := range []uint32{scope.Purpose + hdkeychain.HardenedKeyStart, scope.Coin + hdkeychain.HardenedKeyStart, 9 + hdkeychain.HardenedKeyStart} {
+			c, err := k.DeriveNonStandard(i) // nolint:staticcheck
+			zzW(err)
+			k = c
+		}
+		pubK, err := k.Neuter()
+		zzW(err)
+		overrides := []*waddrmgr.ScopeAddrSchema{nil,
+			{ExternalAddrType: waddrmgr.NestedWitnessPubKey, InternalAddrType: waddrmgr.NestedWitnessPubKey},
+			{ExternalAddrType: waddrmgr.PubKeyHash, InternalAddrType: waddrmgr.PubKeyHash},
+			{ExternalAddrType: waddrmgr.WitnessPubKey, InternalAddrType: waddrmgr.TaprootPubKey},
+			{ExternalAddrType: waddrmgr.TaprootPubKey, InternalAddrType: waddrmgr.WitnessPubKey}}
+		ov := overrides[verifrt.Choice(len(overrides), "override")]
+		zzW(walletdb.Update(w.db, func(tx walletdb.ReadWriteTx) error {
+			sm, err := w.w.Manager.FetchScopedKeyManager(scope)
+			if err != nil {
+				return err
+			}
+			account, err = sm.NewAccountWatchingOnly(tx.ReadWriteBucket(waddrmgrNamespaceKey), "somebody", pubK, 0x11223344, ov)
+			return err
+		}))
+		if ov != nil {
+			schema = *ov
+			verifrt.Reach("schema-override")
+		}
+	case 2: // spending from the imported-keys account: change goes to account 0
+		account = waddrmgr.ImportedAddrAccount
+	}
+	want := map[waddrmgr.AddressType]int{
+		waddrmgr.PubKeyHash:          txsizes.P2PKHPkScriptSize,
+		waddrmgr.NestedWitnessPubKey: txsizes.NestedP2WPKHPkScriptSize,
+		waddrmgr.WitnessPubKey:       txsizes.P2WPKHPkScriptSize,
+		waddrmgr.TaprootPubKey:       txsizes.P2TRPkScriptSize,
+	}[schema.InternalAddrType]
+	zzW(walletdb.Update(w.db, func(dbtx walletdb.ReadWriteTx) error {
+		_, cs, err := w.w.addrMgrWithChangeSource(dbtx, &scope, account)
+		zzW(err)
+		script, err := cs.NewScript()
+		zzW(err)
+		verifrt.Assert(len(script) == cs.ScriptSize, "c07w-change-script-has-the-size-the-fee-was-estimated-for")
+		verifrt.Assert(len(script) == want, "c07w-change-script-type-follows-the-accounts-address-schema")
+		return nil
+	}))
 	verifrt.Reach("c07w-end")
 }
